@@ -757,7 +757,7 @@ impl LunarDay {
     let a_month: isize = self.get_month();
     let b_month: isize = target.get_month();
     if a_month != b_month {
-      return a_month.abs() < b_month.abs();
+      return self.month.get_index_in_year() < target.get_lunar_month().get_index_in_year();
     }
     self.day < target.get_day()
   }
@@ -771,7 +771,7 @@ impl LunarDay {
     let a_month: isize = self.get_month();
     let b_month: isize = target.get_month();
     if a_month != b_month {
-      return a_month.abs() >= b_month.abs();
+      return self.month.get_index_in_year() > target.get_lunar_month().get_index_in_year();
     }
     self.day > target.get_day()
   }
